@@ -411,6 +411,10 @@ func runC02(rc *RunCtx) {
 	mk("t-plain2", map[string]any{}, "auth/token/create")
 	mk("t-victim", map[string]any{}, "auth/token/create") // revoked by a mutator
 	short := mk("t-short", map[string]any{"ttl": "30s"}, "auth/token/create")
+	// (not part of the race: used by the renewal epilogue)
+	renewTok := mk("t-renew", map[string]any{"ttl": "20m"}, "auth/token/create")
+	toks = toks[:len(toks)-1]
+	renewCreated := time.Now()
 	if !faulty {
 		lim := mk("t-limited", map[string]any{"num_uses": 2 + tp.Pick(2)}, "auth/token/create")
 		state.Uses[lim.az.Name] = 0
@@ -709,6 +713,48 @@ func runC02(rc *RunCtx) {
 	}
 	s.ProbeN("requests_allowed", nAllowed)
 	s.ProbeN("requests_total", total)
+	// ---- epilogue: "unexpired" under a failed renewal. The token's lease
+	// write is made to fail during a renewal; a renewal that returned an error
+	// extends nothing: once the ORIGINAL lifetime has passed the token is
+	// refused. (A renewal that succeeded is judged against the lifetime it
+	// was told.)
+	if s.Viol == nil && tp.Pick(2) == 0 {
+		failRenew := tp.Pick(3) != 0
+		if failRenew {
+			disk.FailPrefix, disk.FailOps, disk.FailNth = "sys/expire/id/auth/token/create", "put tx-put", 1
+		}
+		rr, rerr := h.Do("renew", Req{Op: logical.UpdateOperation, Path: "auth/token/renew", Token: h.Root, Data: map[string]any{"token": renewTok.id, "increment": "4h"}})
+		fired := disk.FailHits > 0
+		disk.FailNth = 0
+		renewed := rerr == nil && rr != nil && !rr.IsError() && rr.Auth != nil
+		life := 20 * time.Minute
+		if renewed {
+			life = time.Since(renewCreated) + rr.Auth.TTL
+		}
+		if fired {
+			s.Faults["err-na"]++
+			s.Probe("renewal_with_failed_lease_write")
+		}
+		if wait := time.Until(renewCreated.Add(life)) + 30*time.Second; wait > 0 {
+			s.Advance(wait)
+		}
+		before := len(rec.Snapshot())
+		resp, err := h.Do("late", Req{Op: logical.ReadOperation, Path: "rec/data/a", Token: renewTok.id})
+		reached := false
+		for _, e := range rec.Snapshot()[before:] {
+			if e.Kind == "handler" {
+				reached = true
+			}
+		}
+		ok := err == nil && resp != nil && !resp.IsError()
+		if ok || reached {
+			s.Violate("C02", "expired-token-accepted", map[string]any{"renewal_failed": !renewed, "lease_write_failed": fired},
+				"token t-renew (ttl 20m; renewal returned success=%v, injected lease-write failure=%v) was accepted %s after its creation, its lifetime was %s (handler reached: %v)", renewed, fired, time.Since(renewCreated).Round(time.Second), life.Round(time.Second), reached)
+			return
+		}
+		// positive control: a token with a longer life is still served
+		s.Probe("expiry_epilogue")
+	}
 	rc.Res.Sample = map[string]any{"history": tail(hist, 24)}
 	rc.Res.StateSig = fmt.Sprintf("%d ops/%d allowed", len(ops), nAllowed)
 }
